@@ -500,6 +500,9 @@ struct HttpScript {
     body: Vec<u8>,
 }
 
+/// split values at or above this are not byte offsets but "pause between segments" markers (ms added)
+const SLOW_GAP_BASE: usize = 1_000_000_000;
+
 #[derive(Clone)]
 struct TcpScript {
     beh: TcpBeh,
@@ -603,6 +606,8 @@ async fn serve_tcp(mut s: TcpStream, script: TcpScript, log: Log, segments_writt
         TcpBeh::Refused => {}
         _ => {
             let mut from = 0usize;
+            // a split value >= SLOW_GAP_BASE is not a cut: it encodes the pause between segments in ms
+            let gap_ms = script.splits.iter().copied().filter(|&c| c >= SLOW_GAP_BASE).map(|c| (c - SLOW_GAP_BASE) as u64).max().unwrap_or(4);
             let mut cuts: Vec<usize> = script.splits.iter().copied().filter(|&c| c > 0 && c < script.payload.len()).collect();
             cuts.push(script.payload.len());
             for (i, cut) in cuts.iter().enumerate() {
@@ -616,7 +621,7 @@ async fn serve_tcp(mut s: TcpStream, script: TcpScript, log: Log, segments_writt
                 segments_written.fetch_add(1, Ordering::Relaxed);
                 from = *cut;
                 if i + 1 < cuts.len() {
-                    tokio::time::sleep(Duration::from_millis(4)).await;
+                    tokio::time::sleep(Duration::from_millis(gap_ms)).await;
                 }
             }
             let _ = s.shutdown().await;
@@ -1186,6 +1191,29 @@ fn split_scenarios(ctx: &Ctx, rng: &mut Rng, uniq: &mut u64) -> Vec<Scenario> {
         }));
         for cuts in cut_sets {
             out.push(Scenario { class, https: HttpBeh::Refused, http: HttpBeh::Refused, tcp: beh.clone(), splits: cuts, uniq: u, disk: false, rows });
+        }
+    }
+    // slow segments: the same answer with a pause of 2.6 s (thorough also 5.2 s) between two segments — packets of one
+    // response can be seconds apart on a congested link; the parsed answer must not depend on that either
+    let mut slow: Vec<(EpClass, TcpBeh, usize)> = vec![
+        (EpClass::Summary, TcpBeh::ValidV2(Shape::Plain), 3),
+        (EpClass::Versions, TcpBeh::ValidV2(Shape::InteriorBlank), 4),
+        (EpClass::Summary, TcpBeh::ValidV1(true, Shape::Plain), 2),
+    ];
+    if !ctx.quick() {
+        slow.push((EpClass::Cdns, TcpBeh::ValidV2(Shape::Plain), 6));
+        slow.push((EpClass::Certs, TcpBeh::ValidV1(false, Shape::InteriorBlank), 3));
+    }
+    for (class, beh, rows) in slow {
+        for gap in if ctx.quick() { vec![2600usize] } else { vec![2600usize, 5200] } {
+            *uniq += 1;
+            let u = *uniq;
+            let payload = tcp_payload(&beh, class, u, 0, rows);
+            let inter = interesting_cuts(&payload);
+            // cut at a line boundary in the second half, so that the first part alone is a parseable document
+            let cut = inter.iter().copied().filter(|&c| c > payload.len() / 2 && c < payload.len()).min().unwrap_or(payload.len() / 2);
+            out.push(Scenario { class, https: HttpBeh::Refused, http: HttpBeh::Refused, tcp: beh.clone(), splits: vec![cut, SLOW_GAP_BASE + gap], uniq: u, disk: false, rows });
+            ctx.obs("split.slow_segment_scenarios", 1);
         }
     }
     ctx.set_extra("tcp_split_points_exercised", json!(coverage));
